@@ -132,6 +132,11 @@ func c01Body(cfg c01Cfg, sc c01Scn, res *string) func(x *sched.Exec) {
 		}
 		bsp := NewBatchSpanProcessor(e, opts...).(*batchSpanProcessor)
 		endedAt := map[string]int{}
+		// harness clock: one tick per recorded event. Threads run one at a time, so the order of the
+		// ticks is the real order of "End/Emit returned" and "ForceFlush/Shutdown called" -- within one
+		// thread as well (the scheduler's step counter does not move between two harness statements)
+		clk := 0
+		tick := func() int { clk++; return clk }
 		var results []string
 		firstShutdownAt := -1 // step at which the first Shutdown call was made
 		shutdownCalls := 0
@@ -180,7 +185,7 @@ func c01Body(cfg c01Cfg, sc c01Scn, res *string) func(x *sched.Exec) {
 		}
 		for _, ops := range append(append([][]string{}, sc.threads...), sc.tail) {
 			for _, op := range ops {
-				if strings.HasPrefix(op, "RE:") || op == "PF" || op == "PS" {
+				if strings.HasPrefix(op, "RE:") || op == "PF" || op == "PFc" || op == "PS" {
 					provider()
 				}
 			}
@@ -190,12 +195,17 @@ func c01Body(cfg c01Cfg, sc c01Scn, res *string) func(x *sched.Exec) {
 			case strings.HasPrefix(op, "RE:"):
 				_, sp := tp.Tracer("t").Start(context.Background(), op[3:])
 				sp.End()
-				endedAt[op[3:]] = x.Step()
+				endedAt[op[3:]] = tick()
 			case op == "PF":
-				at := x.Step()
+				at := tick()
 				checkFlush("ForceFlush", at, tp.ForceFlush(context.Background()))
+			case op == "PFc": // provider ForceFlush with a context another thread cancels meanwhile
+				ctx, cancel := vctx.WithCancel(context.Background())
+				sched.Go(cancel)
+				at := tick()
+				checkFlush("ForceFlush", at, tp.ForceFlush(ctx))
 			case op == "PS":
-				at := x.Step()
+				at := tick()
 				if firstShutdownAt < 0 {
 					firstShutdownAt = at
 				}
@@ -208,19 +218,19 @@ func c01Body(cfg c01Cfg, sc c01Scn, res *string) func(x *sched.Exec) {
 			case strings.HasPrefix(op, "E:"), strings.HasPrefix(op, "U:"):
 				n := op[2:]
 				bsp.OnEnd(c01Span{name: n, sampled: op[0] == 'E'})
-				endedAt[n] = x.Step()
+				endedAt[n] = tick()
 			case op == "F":
-				at := x.Step()
+				at := tick()
 				err := bsp.ForceFlush(context.Background())
 				checkFlush("ForceFlush", at, err)
 			case op == "Fc":
 				ctx, cancel := vctx.WithCancel(context.Background())
 				sched.Go(cancel)
-				at := x.Step()
+				at := tick()
 				err := bsp.ForceFlush(ctx)
 				checkFlush("ForceFlush", at, err)
 			case op == "S":
-				at := x.Step()
+				at := tick()
 				if firstShutdownAt < 0 {
 					firstShutdownAt = at
 				}
@@ -236,7 +246,7 @@ func c01Body(cfg c01Cfg, sc c01Scn, res *string) func(x *sched.Exec) {
 			case op == "Sc":
 				ctx, cancel := vctx.WithCancel(context.Background())
 				sched.Go(cancel)
-				at := x.Step()
+				at := tick()
 				if firstShutdownAt < 0 {
 					firstShutdownAt = at
 				}
@@ -282,6 +292,7 @@ func c01Scenarios(thorough bool) []c01Scn {
 		{"S5", [][]string{{"E:s1", "E:s2", "Fc"}}, []string{"S"}},
 		{"S7", [][]string{{"E:s1", "U:u1", "E:s2"}, {"E:s3"}}, []string{"F", "S"}},
 		{"R1", [][]string{{"RE:s1", "RE:s2"}, {"PF"}}, []string{"PS"}}, // real provider, real spans
+		{"R2", [][]string{{"RE:s1", "RE:s2", "PFc"}}, []string{"PS"}},  // provider ForceFlush cut short by its context: an error, or everything exported
 		{"S6", [][]string{{"S"}, {"S"}, {"E:s1"}}, nil},
 		{"S11", [][]string{{"E:s1", "E:s2", "E:s3", "S"}}, nil}, // sequential: several batches left to the shutdown drain
 	}
@@ -312,7 +323,7 @@ func TestVerifC01(t *testing.T) {
 	var jobs []string
 	for _, sc := range scs {
 		for _, c := range cfgs {
-			if sc.name == "R1" && !(c.String() == "q2b1" || c.String() == "q1b1-blocking") {
+			if (sc.name == "R1" || sc.name == "R2") && !(c.String() == "q2b1" || c.String() == "q1b1-blocking") {
 				continue // real spans have many more scheduling points: two configurations only
 			}
 			jobs = append(jobs, sc.name+"/"+c.String())
@@ -327,7 +338,7 @@ func TestVerifC01(t *testing.T) {
 					continue
 				}
 				p, e := 1, 1
-				if sc.name == "R1" {
+				if sc.name == "R1" || sc.name == "R2" {
 					e = 0
 				}
 				if thorough {
@@ -335,7 +346,7 @@ func TestVerifC01(t *testing.T) {
 					if c.q == 1 && !c.faults && !c.blocking && (sc.name == "S3" || sc.name == "S5") {
 						e = 2 // smallest configurations: one more environment deviation
 					}
-					if sc.name == "R1" || sc.name == "S8" || sc.name == "S2" || (c.blocking && (sc.name == "S1" || sc.name == "S4")) {
+					if sc.name == "R1" || sc.name == "R2" || sc.name == "S8" || sc.name == "S2" || (c.blocking && (sc.name == "S1" || sc.name == "S4")) {
 						p, e = 1, 1 // the largest drivers (3 spans + 2 flushes, blocking producers): measured > 40 CPU-minutes at (2,1)
 					}
 				}
